@@ -116,7 +116,15 @@ def check(repo, rep):
                                sample=dict(format=fmt_, calls=[show(c)[:70] for c in calls]))
         except (Undecided, NotEvaluable) as exc:
             rep.unknown('to_file: dispatch on the format could not be evaluated (%s)' % exc)
-    wl = cx.leaves('io', '_save_wave')
+    from ..semantic import deep_leaves as _dl18, Undecided as _U18
+
+    def _deep(name):
+        try:
+            f_ = cx.fn('io', name)
+            return _dl18(cx, getattr(f_, '_home', 'io'), None, f_)
+        except _U18:
+            return cx.leaves('io', name)
+    wl = _deep('_save_wave')
     for l in wl:
         if l.outcome == 'raise':
             continue
@@ -124,7 +132,7 @@ def check(repo, rep):
         rep.ob('the wave writer writes exactly the given bytes', len(wr) == 1 and wr[0][2] == (('p', 'data'),), cx.where('io', cx.fn('io', '_save_wave')), '_save_wave:writeframes', 'writes %s' % [show(w)[:60] for w in wr])
         sets = {e[1][1][2] for e in l.effects if e[0] == 'call' and e[1][0] == 'call' and e[1][1][0] == 'attr' and e[1][1][2] in ('setframerate', 'setsampwidth', 'setnchannels')}
         rep.ob('the wave header gets rate, width and channel count', sets == {'setframerate', 'setsampwidth', 'setnchannels'}, cx.where('io', cx.fn('io', '_save_wave')), '_save_wave:header', 'setters called: %s' % sorted(sets))
-    rl = cx.leaves('io', '_save_raw')
+    rl = _deep('_save_raw')
     for l in rl:
         wr = [e[1] for e in l.effects if e[0] == 'call' and e[1][0] == 'call' and e[1][1][0] == 'attr' and e[1][1][2] == 'write']
         rep.ob('the raw writer writes exactly the given bytes', len(wr) == 1 and wr[0][2] == (('p', 'data'),), cx.where('io', cx.fn('io', '_save_raw')), '_save_raw:write', 'writes %s' % [show(w)[:60] for w in wr])
